@@ -148,7 +148,7 @@ Qed.
 Lemma init_idx h n : forall ring i, map nl_idx (init_loads h n i ring) = map (fun j => ((i + N.of_nat j) + h) mod n)%N (seq 0 (length ring)).
 Proof.
   induction ring as [|x ring IH]; intros i; simpl; [reflexivity|]. f_equal.
-  - f_equal. lia.
+  - rewrite wrap_v2_id. f_equal. lia.
   - rewrite IH. rewrite <- seq_shift, map_map. apply map_ext. intros j. f_equal. lia.
 Qed.
 Theorem init_idx_nodup h (ring : list (list N)) :
